@@ -20,7 +20,7 @@ EXPLANATION = ("fast_nonMarkov_SIR is executed symbolically with a harness-owned
                "get_infected_nodes = out-component after removing the initially recovered nodes.  myQueue: arbitrary "
                "symbolic times, pop order = (time, insertion), entries at/after tmax dropped.")
 BOUNDS = {'quick': 'graphs G3 x all (I0,R0) with ties; symbolic tmax on P3/K3; zero / infinite values as extra configurations on P3; myQueue with <=3 entries',
-          'thorough': 'adds P4, S3, C4 (ties), paw, K4 (generic), myQueue <= 4 entries'}
+          'thorough': 'adds P4, S3, C4, paw (generic values, no ties), myQueue <= 4 entries; excluded as too many event orderings for the budget: C4 from two opposite initial nodes, weighted fast_SIR on paw from the degree-3 node'}
 ASSUMPTIONS = ['floats as reals', 'user rules are functions of (u,v) / u (one value per pair / node)',
                'L1 (first-passage percolation <=> SIR with those delays) is what makes this the right oracle',
                'directed_percolate_network: exponential draws are fresh positive symbols (rates checked separately)']
@@ -44,6 +44,12 @@ def configs(tier):
         n, edges = graphs.ALL[g]
         for I0, R0 in graphs.automorphism_reduced_ics(g):
             ties = not (g in ('paw', 'K4', 'C4'))
+            # event orderings on the 4-node graphs with a cycle outgrow the per-configuration budget for these starts (outside the claim)
+            heavy = (g == 'C4' and sorted(I0) == [0, 2] and not R0) or (g == 'paw' and I0 == [2] and not R0)
+            if heavy and tier == 'thorough':
+                out.append(dict(entry='fast_nonMarkov_SIR', family='fpp', graph=g, I0=I0, R0=R0, full=True, tmax='inf', ties=False,
+                                tags=['fpp', g, 'heavy'])) if g == 'paw' else None
+                continue
             out.append(dict(entry='fast_nonMarkov_SIR', family='fpp', graph=g, I0=I0, R0=R0, full=True, tmax='inf', ties=ties,
                             tags=['fpp', g] + (['R0'] if R0 else [])))
             if g in ('P3', 'K3', 'K2') and not R0:
